@@ -161,4 +161,23 @@ example : dec [0x5c,0x78,0x30,0x30, 0x27, 0x5c,0x5c, 0x5c,0x6e, 0x5c,0x78,0x66,0
 -- the decoder does reject something (the theorem is not about a constant function)
 example : dec [0x5c] = none ∧ dec [0x5c, 0x78, 0x34] = none := by decide +kernel
 
+
+/-! ## round-6 cross-audit: further non-vacuity witnesses -/
+
+-- the hypothesis of `enc_injective` is satisfiable across DIFFERENT option pairs (same text, different views)
+example : enc false false [0x41, 0x22] = enc true true [0x41, 0x22] := by decide +kernel
+example : ([0x41, 0x22] : Bytes) = [0x41, 0x22] := enc_injective false false true true _ _ (by decide +kernel)
+-- keep_spacing really keeps TAB / LF / CR raw and still escapes the other controls (`output_clean` with k = true is not
+-- the k = false statement in disguise)
+example : enc true false [0x09, 0x0a, 0x0d, 0x00, 0x7f] =
+    [0x09, 0x0a, 0x0d, 0x5c,0x78,0x30,0x30, 0x5c,0x78,0x37,0x66] := by decide +kernel
+example : ∀ c ∈ enc true false [0x09, 0x1b, 0x80], okChar true c = true := output_clean true false _
+example : okChar false 0x09 = false ∧ okChar true 0x09 = true ∧ okChar true 0x1b = false ∧ okChar true 0x80 = false := by decide
+-- `edit_roundtrip` on a concrete three-region text (quote + backslash | newline kept raw | non-ASCII)
+example : dec (enc true true [0x27, 0x5c] ++ enc true true [0x0a] ++ enc true true [0xff]) = some ([0x27, 0x5c] ++ [0x0a] ++ [0xff]) :=
+  edit_roundtrip true true _ [] _ _
+-- the round trip where the escaped text itself contains backslash-n as two characters next to a raw newline
+example : dec (enc true false [0x5c, 0x6e, 0x0a]) = some [0x5c, 0x6e, 0x0a] ∧ enc true false [0x5c, 0x6e, 0x0a] = [0x5c, 0x5c, 0x6e, 0x0a] := by
+  decide +kernel
+
 end MitmVerif.Props.C51
